@@ -94,11 +94,17 @@ func cmdCheck(args []string) int {
 		if *only != "" && !strings.Contains(fi.Name(), *only) {
 			continue
 		}
-		t0 := time.Now()
-		r := verifyUnit(p, fi)
-		r.GenTime = time.Since(t0).Seconds()
-		results = append(results, r)
-		all = append(all, r.Obligations...)
+		for _, r := range func() []*UnitResult {
+			t0 := time.Now()
+			rs := verifyUnits(p, fi)
+			for _, r := range rs {
+				r.GenTime = time.Since(t0).Seconds() / float64(len(rs))
+			}
+			return rs
+		}() {
+			results = append(results, r)
+			all = append(all, r.Obligations...)
+		}
 	}
 	opts := SolveOpts{QuickT: 3, SlowT: 20, Workers: runtime.NumCPU()}
 	if *tier == "thorough" {
